@@ -96,7 +96,9 @@ class AccfgGen:
             if p.get("n_launch"):
                 st["lvals"] = [r.choice(p["launch_pool"]) for _ in range(p["n_launch"][a])]
             if p.get("prethread") and r.random() < p["prethread"]:
-                st["link"] = True
+                # "stale": the link names an older state of the accelerator in this block although other setups or calls
+                # came in between (IR that was threaded before something was inserted): tracing has to replace or drop it
+                st["link"] = "stale" if p.get("stale_links") and r.random() < p["stale_links"] else True
             if p.get("relaunch") and r.random() < p["relaunch"]:
                 # launch the same configuration again, directly or nested in a region without any setup
                 st["after"] = {"kind": r.choice(["plain", "if", "for"]), "cond": r.choice(["%b0", "%b1", "%b2"]), "ub": r.choice(["%n0", "%n1", "%c2"]), "n": r.randint(1, 2)}
@@ -215,18 +217,31 @@ def emit(ast, acc_names=None, vty="i32", decls=()) -> str:
     names = acc_names or [{"name": f"acc{a}", "fields": FIELD_NAMES[: ast["n_fields"][a]]} for a in range(ast["n_acc"])]
 
     def stmts(ind, body):
-        # truthful pre-existing threading (C07): a setup marked "link" consumes the state of the previous setup
+        # pre-existing threading (C07): a setup marked "link" consumes the state of the previous setup ("stale": of an older one)
         # of its accelerator in the same block, provided nothing that may touch the accelerator sits in between
         last: dict = {}
+        older: dict = {}  # every state of an accelerator defined so far in this block (all of them dominate what follows)
+
+        def pick(s):
+            if s.get("link") == "stale" and older.get(s["acc"]):
+                return older[s["acc"]][(len(older[s["acc"]]) * 7 + len(s["vals"])) % len(older[s["acc"]])]
+            return last.get(s.get("acc")) if s.get("link") else None
+
+        def remember(s):
+            if s["k"] == "sl" and s["acc"] in last:
+                older.setdefault(s["acc"], []).append(last[s["acc"]])
+
         for s in body:
             k = s["k"]
             if k in ("for", "if") or (k == "call" and s["eff"] != "none"):
                 last.clear()
             if k == "sl" and s.get("gap") and any(g["k"] == "call" and g["eff"] != "none" for g in s["gap"]):
-                stmt(ind, s, last.get(s["acc"]) if s.get("link") else None, last)
+                stmt(ind, s, pick(s), last)
+                remember(s)
                 last.clear()
                 continue
-            stmt(ind, s, last.get(s.get("acc")) if s.get("link") else None, last)
+            stmt(ind, s, pick(s), last)
+            remember(s)
 
     def stmt(ind, s, link=None, last=None):
         k = s["k"]
